@@ -2572,7 +2572,13 @@ def _chan_cap(it, args, dty, func):
     return _chan(args[0]).cap
 
 
-@model("fibre::mpmc_v2::AsyncSender::close", "fibre::mpmc_v2::AsyncReceiver::close")
+@model("fibre::mpsc::BoundedAsyncSender::is_full", "fibre::spsc::BoundedAsyncSender::is_full", "fibre::mpmc_v2::AsyncSender::is_full")
+def _chan_is_full(it, args, dty, func):
+    ch = _chan(args[0])
+    return len(ch.items) >= ch.cap
+
+
+@model("fibre::mpmc_v2::AsyncSender::close", "fibre::mpmc_v2::AsyncReceiver::close", "fibre::mpsc::BoundedAsyncSender::close")
 def _chan_close(it, args, dty, func):
     _chan(args[0]).closed = True
     return ok(UNIT)
